@@ -127,6 +127,9 @@ CORPUS += [
 
 CORPUS += [
     # ---------------------------------------------------------------- C06
+    V("C06", "kopt-checker-permutation-only", "rl4co/envs/routing/tsp/env.py", '        assert (visited_time > 0).all(), "Not a single tour"\n\n    def get_mask(self, td):', '    def get_mask(self, td):', "C06.p"),
+    V("C06", "ruinrepair-checker-reach-not-asserted", "rl4co/envs/routing/pdp/env.py", '        assert (visited_time > 0).all(), "Not a single tour"\n        assert (\n            visited_time[:, 1 : graph_size // 2 + 1]', '        assert (\n            visited_time[:, 1 : graph_size // 2 + 1]', "C06.p"),
+    V("C06", "eq-kopt-checker-yoda", "rl4co/envs/routing/tsp/env.py", 'assert (visited_time > 0).all(), "Not a single tour"\n\n    def get_mask(self, td):', 'assert (0 < visited_time).all(), "Not a single tour"\n\n    def get_mask(self, td):', None),
     V("C06", "svrp-checker-open-route-unchecked", "rl4co/envs/routing/svrp/env.py", "closed_actions = torch.cat([actions, torch.zeros_like(actions[:, :1])], 1)", "closed_actions = actions", "C06.o"),
     V("C06", "cvrp-checker-head-unchecked", "rl4co/envs/routing/cvrp/env.py", ').all() and (sorted_pi[:, :-graph_size] == 0).all(), "Invalid tour"', ').all(), "Invalid tour"', 'C06.m'),
     V("C06", "pctsp-checker-count-incl-depot", "rl4co/envs/routing/pctsp/env.py", '== (td["locs"].size(-2) - 1)', '== td["real_prize"].size(-1)', 'C06.n'),
